@@ -134,7 +134,7 @@ def violations_of(oRules, with_phase=False):
     return sorted(out, key=lambda x: tuple(str(y) for y in x))
 
 
-def run_cli(args, cwd=None, stdin=None, timeout=300, env_extra=None, launcher=None, pre=None):
+def run_cli(args, cwd=None, stdin=None, timeout=150, env_extra=None, launcher=None, pre=None):
     """Run the real CLI (`python -m vsg` equivalent: bin/vsg → vsg.__main__.main)."""
     env = dict(os.environ)
     env["PYTHONPATH"] = REPO + os.pathsep + os.path.join(VERIF, "lib")
@@ -148,7 +148,12 @@ def run_cli(args, cwd=None, stdin=None, timeout=300, env_extra=None, launcher=No
         cmd = [PY, launcher]
     if pre:
         cmd = list(pre) + cmd
-    p = subprocess.run(cmd + list(args), cwd=cwd, input=stdin, capture_output=True, text=True, timeout=timeout, env=env)
+    try:
+        p = subprocess.run(cmd + list(args), cwd=cwd, input=stdin, capture_output=True, text=True, timeout=timeout, env=env)
+    except subprocess.TimeoutExpired:
+        # a run that does not come back is C19's finding (parser loops on broken input are listed there); callers
+        # treat it like an unhandled exception: nothing to conclude about their own property
+        return -9, "", "Traceback (most recent call last):\n  <no answer within %d s: hang>\n" % timeout
     return p.returncode, p.stdout, p.stderr
 
 
